@@ -5,14 +5,17 @@ A *case* is JSON-able:
   {"stream": "yaml", "yaml": text}                                                (real yaml text)
   {"stream": "f9", "cls": name}                                                   (ctor-incompatible classes)
 Cells use the wire form of lean/Driver/OpHeap.lean:
-  {"leaf": wire} {"str": s} {"list": [tag, [refs]]} {"tuple": …} {"set": …} {"dict": [tag, [[k, v]…]]}
+  {"leaf": wire} {"mbytes": hex} (a bytearray) {"str": s} {"list": [tag, [refs]]} {"tuple": …} {"set": …} {"dict": [tag, [[k, v]…]]}
   {"sic": ref} {"py": name} {"jsonify": ref}
 """
 from __future__ import annotations
 
 import collections
+import contextlib
 import copy
 import io
+import signal
+import threading
 from collections.abc import Mapping, Sequence, Set
 
 from . import common
@@ -100,6 +103,33 @@ def is_leaf(o):
     return not is_special(o)
 
 
+class CaseTimeout(BaseException):
+    """One case took longer than its time limit (BaseException: no `except Exception` of the code under test
+    swallows it)."""
+
+
+@contextlib.contextmanager
+def time_limit(seconds):
+    """Per-case wall-clock limit (SIGALRM, main thread only): an implementation that never returns becomes a
+    CaseTimeout at the call site instead of a hang of the check."""
+    if threading.current_thread() is not threading.main_thread() or not hasattr(signal, 'setitimer'):
+        yield
+        return
+
+    def on_alarm(signum, frame):
+        raise CaseTimeout()
+    old = signal.signal(signal.SIGALRM, on_alarm)
+    signal.setitimer(signal.ITIMER_REAL, seconds)
+    try:
+        yield
+    finally:
+        signal.setitimer(signal.ITIMER_REAL, 0)
+        signal.signal(signal.SIGALRM, old)
+
+
+CASE_SECONDS = 10.0
+
+
 def fresh_str(s):
     """A str object that is not shared with any other (len >= 2)."""
     return ''.join(list(s)) if len(s) >= 2 else s
@@ -121,6 +151,8 @@ def build_objects(cells):
                 o = EqOpaque(w['o'])
             else:
                 o = common.dec(w)
+        elif 'mbytes' in c:
+            o = bytearray.fromhex(c['mbytes'])
         elif 'str' in c:
             o = fresh_str(c['str'])
         elif 'list' in c:
@@ -152,11 +184,12 @@ class NotModelled(Exception):
 
 
 def identity_bearing(o):
-    """Objects whose id() the comparison trusts: containers, special tags, opaque objects, strs of
-    length >= 2 (shorter strs and numbers may be CPython singletons)."""
-    if isinstance(o, str):
+    """Objects whose id() the comparison trusts: containers, special tags, opaque objects, every bytearray
+    (mutable: its identity is observable by a later write), strs and bytes of length >= 2 (shorter ones and
+    numbers may be CPython singletons)."""
+    if isinstance(o, (str, bytes)):
         return len(o) >= 2
-    if isinstance(o, Opaque):
+    if isinstance(o, (Opaque, bytearray)):
         return True
     if type(o) in (tuple, frozenset) and len(o) == 0:
         return False                      # CPython singletons
@@ -191,9 +224,9 @@ def graph_to_cells(roots):
             r = add({'py': o.value}, o)
         elif isinstance(o, Jsonify):
             r = add({'jsonify': walk(o.value)}, o)
+        elif isinstance(o, bytearray):
+            r = add({'mbytes': bytes(o).hex()}, o)
         elif is_leaf(o):
-            if isinstance(o, bytearray):
-                raise NotModelled('bytearray')
             r = add({'leaf': enc(o)}, o)
         else:
             kt = classify(o)
@@ -242,7 +275,13 @@ def impl_graph(result, id2old):
             seen[id(o)] = lb = label(o)
             return {'id': lb, 'str': o}
         if is_leaf(o):
-            return {'leaf': enc(o)}
+            # binary leaves carry their identity: bytearray always, bytes when not a CPython singleton
+            node = {'mbytes': bytes(o).hex()} if isinstance(o, bytearray) else {'leaf': enc(o)}
+            if isinstance(o, (bytes, bytearray)) and not in_set and identity_bearing(o):
+                if id(o) in seen:
+                    return {'ref': seen[id(o)]}
+                seen[id(o)] = node['id'] = label(o)
+            return node
         ident = not in_set and identity_bearing(o)
         if ident and id(o) in seen:
             return {'ref': seen[id(o)]}
@@ -295,8 +334,15 @@ def model_graph(cells, root, n0):
                 return {'ref': seen[r]}
             seen[r] = lb = label(r)
             return {'id': lb, 'str': s}
-        if 'leaf' in c:
-            return {'leaf': c['leaf']}
+        if 'leaf' in c or 'mbytes' in c:
+            node = dict(c)
+            w = c.get('leaf')
+            binary = 'mbytes' in c or (isinstance(w, dict) and 'b' in w and len(w['b']) >= 4)
+            if binary and not in_set:
+                if r in seen:
+                    return {'ref': seen[r]}
+                seen[r] = node['id'] = label(r)
+            return node
         ident = not in_set and not (('tuple' in c and c['tuple'] == [0, []]) or ('set' in c and c['set'] == [1, []]))
         if ident and r in seen:
             return {'ref': seen[r]}
@@ -347,6 +393,8 @@ def cells_to_wire(cells, r):
     c = cells[r]
     if 'leaf' in c:
         return c['leaf']
+    if 'mbytes' in c:
+        return {'b': c['mbytes']}          # the tree reading has one kind of binary leaf
     if 'str' in c:
         return c['str']
     if 'list' in c:
@@ -491,11 +539,41 @@ def deep_equal(a, b, depth=0):
     return a is b
 
 
+def has_cycle(o, stack=None, done=None):
+    """The object graph below `o` contains itself (followed through mappings, sequences, sets, special tags)."""
+    stack = set() if stack is None else stack
+    done = set() if done is None else done
+    if isinstance(o, (str, bytes, bytearray)) or id(o) in done:
+        return False
+    if id(o) in stack:
+        return True
+    if is_special(o):
+        kids = [o.value]
+    elif isinstance(o, Mapping):
+        kids = [x for kv in o.items() for x in kv]
+    elif isinstance(o, (Sequence, Set)):
+        kids = list(o)
+    else:
+        return False
+    stack.add(id(o))
+    try:
+        if len(stack) > 900:
+            return True
+        return any(has_cycle(x, stack, done) for x in kids)
+    finally:
+        stack.discard(id(o))
+        done.add(id(o))
+
+
 class Snapshot:
     """Deep snapshot of an object graph: deepcopy (opaque objects kept by reference so `==` is
-    meaningful), repr text, type skeleton."""
+    meaningful), repr text, type skeleton. A self-referential graph is only recorded as such."""
 
     def __init__(self, o):
+        self.cyclic = has_cycle(o)
+        if self.cyclic:
+            self.copy, self.repr, self.skel, self.ids = None, '<self-referential>', None, None
+            return
         memo = dict(opaques_in(o))
         try:
             self.copy = copy.deepcopy(o, memo)
@@ -507,8 +585,10 @@ class Snapshot:
 
     def same(self, o, ids=False):
         """`ids=True`: `o` is the snapshotted object itself, later — also its parts must be the same objects"""
-        if ids and node_ids(o) != self.ids:
-            return 'object identities differ (an object in it was replaced by another one)'
+        if has_cycle(o):
+            return None if self.cyclic else 'it has become self-referential (it contains itself)'
+        if self.cyclic:
+            return 'it was self-referential and is not any more'
         if self.copy is not None:
             if not deep_equal(o, self.copy):
                 return 'value differs from its deep copy'
@@ -519,6 +599,8 @@ class Snapshot:
             return 'repr differs'
         if skel(o) != self.skel:
             return 'container types differ'
+        if ids and node_ids(o) != self.ids:
+            return 'object identities differ (an object in it was replaced by another one)'
         return None
 
 
@@ -564,7 +646,22 @@ def py_brace_free(o, seen=None):
     return True
 
 
-def shape_monitor(inp, res, path='$', fmt=None):
+import re as _re
+
+_SINGLE = _re.compile(r'^\{([A-Za-z_][A-Za-z0-9_]*)(:ff|:rf)?\}$')
+
+
+def leaf_reference(inp, ctx):
+    """(True, obj) when `inp` is a string that is exactly one expression '{key}' / '{key:ff}' / '{key:rf}' whose key
+    holds a non-string leaf `obj` in the context: formatting it hands back that very object."""
+    if type(inp) is str and ctx is not None:
+        m = _SINGLE.match(inp)
+        if m and m.group(1) in ctx and is_leaf(ctx[m.group(1)]):
+            return True, ctx[m.group(1)]
+    return False, None
+
+
+def shape_monitor(inp, res, path='$', fmt=None, ctx=None):
     """The property's second sentence, judged position by position on the implementation's result alone:
       * a non-string leaf of the input IS (`is`) the object at the same position of the result, same type;
       * a container comes back as the same class with the same shape, its members formatted element-wise: the
@@ -576,12 +673,16 @@ def shape_monitor(inp, res, path='$', fmt=None):
         own formatting must be in the result.
     Returns a failure text or None."""
     if isinstance(inp, str) or is_special(inp):
+        isref, obj = leaf_reference(inp, ctx)
+        if isref and res is not obj:
+            return (f'{path}: {inp!r} refers to the non-string leaf {obj!r} ({type(obj).__name__}) of the context, '
+                    f'which came back as a different object {res!r} ({type(res).__name__})')
         if fmt is None or path == '$':
             return None                               # the top-level formattable: any result
         try:
             alone = fmt(inp)
         except RecursionError:
-            raise
+            return None                               # unbounded recursion on its own: no element-wise claim
         except Exception as e:
             return (f'{path}: formatting the element {inp!r} on its own raises {type(e).__name__} although formatting '
                     f'the container gave {res!r} at its position')
@@ -601,7 +702,8 @@ def shape_monitor(inp, res, path='$', fmt=None):
             return f'{path}: mapping grew'
         if len(res) == len(inp):
             for i, ((k, v), (k2, v2)) in enumerate(zip(inp.items(), res.items())):
-                f = shape_monitor(k, k2, f'{path}.key{i}', fmt) or shape_monitor(v, v2, f'{path}[{k!r}]', fmt)
+                f = (shape_monitor(k, k2, f'{path}.key{i}', fmt, ctx)
+                     or shape_monitor(v, v2, f'{path}[{k!r}]', fmt, ctx))
                 if f:
                     return f
         return None
@@ -616,8 +718,6 @@ def shape_monitor(inp, res, path='$', fmt=None):
                     continue
                 try:
                     alone = fmt(x)
-                except RecursionError:
-                    raise
                 except Exception:
                     continue
                 if not any(deep_equal(alone, y) for y in res):
@@ -625,13 +725,13 @@ def shape_monitor(inp, res, path='$', fmt=None):
             elif is_leaf(x):
                 if not any(x is y for y in res):
                     return f'{path}: set member {x!r} is not in the result as the identical object'
-            elif not any(type(y) is type(x) and shape_monitor(x, y, f'{path}{{}}', fmt) is None for y in res):
+            elif not any(type(y) is type(x) and shape_monitor(x, y, f'{path}{{}}', fmt, ctx) is None for y in res):
                 return f'{path}: set member {x!r} has no element-wise formatted counterpart in the result {res!r}'
         return None
     if len(res) != len(inp):
         return f'{path}: sequence length {len(inp)} became {len(res)}'
     for i, (x, y) in enumerate(zip(inp, res)):
-        f = shape_monitor(x, y, f'{path}[{i}]', fmt)
+        f = shape_monitor(x, y, f'{path}[{i}]', fmt, ctx)
         if f:
             return f
     return None
@@ -683,20 +783,52 @@ def exc_name(e):
     return common.exc_name(e)
 
 
-def run_impl(value, ctxdict, id2old):
-    """Format `value` against Context(ctxdict). Returns (obs, monitor_failures).
-    obs: {"ok": {"graph": …, "val": wire}} or {"err": name}."""
+ENTRIES = ('context', 'formatter', 'plain')
+
+
+def formatter_of(ctx, entry):
+    """The formatting entry point under test, as a function of the value:
+      context   - Context.get_formatted_value (what every step uses);
+      formatter - a RecursiveFormatter configured like Context's, called directly (vformat with the context as
+                  kwargs): the generic formatter owns the property, not the way Context happens to configure it;
+      plain     - RecursiveFormatter() with no special / passthrough types at all (for values and contexts
+                  without special tags)."""
+    if entry == 'context':
+        return ctx.get_formatted_value
+    from pypyr.dsl import SpecialTagDirective
+    from pypyr.formatting import RecursiveFormatter
+    f = RecursiveFormatter(special_types=SpecialTagDirective) if entry == 'formatter' else RecursiveFormatter()
+    return lambda v: f.vformat(v, None, ctx)
+
+
+def has_special(o):
+    return any(is_special(x) for x in iter_nodes(o))
+
+
+def run_impl(value, ctxdict, id2old, entry='context'):
+    """Format `value` against Context(ctxdict) through `entry`. Returns (obs, monitor_failures).
+    obs: {"ok": {"graph": …, "val": wire}} or {"err": name}. Never raises for what the implementation does:
+    an unexpected exception, unbounded recursion or a call that does not return within CASE_SECONDS is an
+    observation (and, where the property says something about it, a monitor failure)."""
+    try:
+        with time_limit(CASE_SECONDS):
+            return _run_impl(value, ctxdict, id2old, entry)
+    except CaseTimeout:
+        return ({'err': 'Timeout', 'msg': f'no result within {CASE_SECONDS}s'},
+                [('hang', f'formatting did not return within {CASE_SECONDS}s')])
+
+
+def _run_impl(value, ctxdict, id2old, entry):
     from pypyr.context import Context
     ctx = Context(ctxdict)
+    fmtcall = formatter_of(ctx, entry)
     snap_v, snap_c = Snapshot(value), Snapshot(dict(ctx))
     fails = []
     bf = py_brace_free(value)
     try:
-        res = ctx.get_formatted_value(value)
+        res = fmtcall(value)
         err = None
-    except RecursionError:
-        raise
-    except Exception as e:  # the formatter's own error
+    except Exception as e:  # the formatter's own error, RecursionError included
         res, err = None, e
     f = snap_v.same(value, ids=True)
     if f:
@@ -709,7 +841,10 @@ def run_impl(value, ctxdict, id2old):
         if bf:
             fails.append(('bracefree-raises', f'formatting a brace-free value raised {type(err).__name__}: {err}'))
         return {'err': exc_name(err), 'msg': str(err)[:200]}, fails
-    f = shape_monitor(value, res, fmt=ctx.get_formatted_value)
+    try:
+        f = shape_monitor(value, res, fmt=fmtcall, ctx=ctx)
+    except RecursionError:
+        f = None            # formatting an element on its own recursed without bound: no element-wise claim
     if f:
         fails.append(('shape', f))
     f = snap_v.same(value, ids=True) or snap_c.same(dict(ctx), ids=True)
@@ -721,18 +856,65 @@ def run_impl(value, ctxdict, id2old):
             fails.append(('bracefree-not-equal', f'brace-free value came back different: {f}'))
     if py_brace_free(res):
         try:
-            again = ctx.get_formatted_value(res)
+            again = fmtcall(res)
             f = Snapshot(res).same(again)
             if f:
                 fails.append(('idempotence', f'formatting the brace-free result again changed it: {f}'))
         except Exception as e:
             fails.append(('idempotence', f'formatting the brace-free result again raised {type(e).__name__}: {e}'))
+    fails += history_monitor(value, ctx, res, snap_v, snap_c, entry)
     try:
         val = canon_wire(enc9(res))
     except Exception:
         val = {'unencodable': repr(res)[:200]}
     obs = {'ok': {'graph': impl_graph(res, id2old), 'val': val}}
     return obs, fails
+
+
+def fresh_result(value_copy, ctx_copy, entry):
+    """Format a copy of the value against a copy of the context through a fresh Context (and, for the direct
+    entries, a fresh RecursiveFormatter): nothing any earlier call may have left anywhere applies to these."""
+    from pypyr.context import Context
+    c = Context(ctx_copy)
+    try:
+        return None, formatter_of(c, entry)(value_copy)
+    except Exception as e:
+        return e, None
+
+
+def history_monitor(value, ctx, res, snap_v, snap_c, entry):
+    """"Pure": the result is a function of the value and the context as they are NOW - not of what was formatted
+    before. (1) the result on the live objects equals the result on deep copies of them; (2) the very same value
+    object formatted again through the very same entry point after the context changed (every brace-free string
+    value of the context gets a suffix) equals what a fresh formatting of copies gives for the changed context."""
+    if snap_v.copy is None or snap_c.copy is None:
+        return []
+    e, expected = fresh_result(Snapshot(value).copy, Snapshot(dict(ctx)).copy, entry)
+    if e is not None or not deep_equal(res, expected):
+        return [('history', 'the result depends on more than value and context: on the live objects '
+                            f'{stable_repr(res)[:120]}, on deep copies of the same value and context '
+                            f'{"raised " + type(e).__name__ if e else stable_repr(expected)[:120]}')]
+    changed = {k: v for k, v in ctx.items() if type(v) is str and len(v) >= 1 and py_brace_free(v)}
+    if not changed:
+        return []
+    fmtcall = formatter_of(ctx, entry)
+    try:
+        for k, v in changed.items():
+            ctx[k] = v + '#2'
+        e2, exp2 = fresh_result(Snapshot(value).copy, Snapshot(dict(ctx)).copy, entry)
+        try:
+            res2, err2 = fmtcall(value), None
+        except Exception as ex:
+            res2, err2 = None, ex
+        if (err2 is None) != (e2 is None) or (err2 is None and not deep_equal(res2, exp2)):
+            return [('history', 'formatting the same value object again after the context changed gave '
+                                f'{"raised " + type(err2).__name__ if err2 else stable_repr(res2)[:120]}; a fresh '
+                                f'formatting of copies against the changed context gives '
+                                f'{"raised " + type(e2).__name__ if e2 else stable_repr(exp2)[:120]}')]
+    finally:
+        for k, v in changed.items():
+            ctx[k] = v
+    return []
 
 
 def materialise(case):
@@ -779,6 +961,8 @@ class HeapBuilder:
         return all(self.strable[r] for r in rs)
 
     def leaf(self, v):
+        if isinstance(v, bytearray):       # mutable, unhashable: never a dict key / set member
+            return self.add({'mbytes': bytes(v).hex()}, 'MB' + bytes(v).hex(), False, False)
         w = enc(v)
         return self.add({'leaf': w}, canon(w), True, not isinstance(v, (bytes, bytearray)))
 
@@ -828,7 +1012,8 @@ class HeapBuilder:
         return out
 
 
-LEAVES = [None, True, False, 0, 1, -7, 2 ** 70, 0.5, -2.25, b'', b'\x00{x}', 12345678901234567890]
+LEAVES = [None, True, False, 0, 1, -7, 2 ** 70, 0.5, -2.25, b'', b'\x00{x}', 12345678901234567890,
+          bytearray(), bytearray(b'{a}'), bytearray(b'buf {x} \x00\x01'), b'raw {a} bytes']
 
 
 def directed_cases():
@@ -915,6 +1100,45 @@ def directed_cases():
         s = b.str('{n}')
         return ctx, b.list([s, s])
     case('memo-none-result', shared_none)
+
+    # binary leaves: bytes and the MUTABLE bytearray come through as the identical objects, wherever they sit
+    # (container member, mapping value under a formatted key, the same object at several positions, the
+    # target of a single expression '{buf}' / '{buf:ff}' / '{buf:rf}', inside a context list reached by '{bl}')
+    def bin_ctx(b):
+        ctx = std_ctx(b)
+        buf, raw, ebuf = b.leaf(bytearray(b'buffer {a} \x00\x01')), b.leaf(b'raw {a} bytes'), b.leaf(bytearray())
+        bl = b.list([buf, raw, b.str('{a}'), b.tuple([buf, ebuf])])
+        return ctx + [['buf', buf], ['raw', raw], ['ebuf', ebuf], ['bl', bl]], buf, raw, ebuf
+
+    def binary_nested(b):
+        ctx, buf, raw, ebuf = bin_ctx(b)
+        own = b.leaf(bytearray(b'own {a}'))
+        return ctx, b.dict([[b.str('raw'), raw], [b.str('buf'), buf],
+                            [b.str('nested'), b.list([b.leaf(1), b.str('text {a}'), b.tuple([buf, raw, own]),
+                                                      b.dict([[b.str('k{a}'), ebuf]]), own])]])
+    case('binary-nested', binary_nested)
+    for si, s in enumerate(['{buf}', '{raw}', '{ebuf}', '{buf:ff}', '{buf:rf}', '{raw:ff}', '{bl}', '{bl:ff}',
+                            '{bl:rf}']):
+        case(f'binary-expr{si}', lambda b, s=s: (bin_ctx(b)[0], b.str(s)))
+        case(f'binary-expr{si}-inlist',
+             lambda b, s=s: (bin_ctx(b)[0], b.list([b.str(s), b.tuple([b.str(s)]), b.dict([[b.str('v'), b.str(s)]])])))
+    for kind in ('list', 'list2', 'list3', 'tuple', 'tuple3', 'dict', 'dict2', 'dict3', 'dict4'):
+        def build(b, kind=kind):
+            ctx, buf, raw, ebuf = bin_ctx(b)
+            own, own2 = b.leaf(bytearray(b'\x00')), b.leaf(bytearray(b'ab'))
+            kids = [own, buf, own, raw, b.str('{a}'), own2, ebuf]
+            if kind.startswith('dict'):
+                r = b.dict([[b.str(f'k{i}' + ('{a}' if i % 2 else '')), x] for i, x in enumerate(kids)],
+                           int(kind[4:] or 0))
+            elif kind.startswith('tuple'):
+                r = b.tuple(kids, int(kind[5:] or 0))
+            else:
+                r = b.list(kids, int(kind[4:] or 0))
+            return ctx, b.list([r, r, b.tuple([own])])
+        case(f'binary-in-{kind}', build)
+    case('binary-unhashable-key', lambda b: (bin_ctx(b)[0], b.dict([[b.str('{buf}'), b.leaf(1)]])))
+    case('binary-unhashable-member', lambda b: (bin_ctx(b)[0], b.set([b.str('{buf}'), b.str('x')])))
+    case('binary-jsonify', lambda b: (bin_ctx(b)[0], b.jsonify(b.list([b.leaf(bytearray(b'ab'))]))))
 
     def shared_sic(b):
         ctx = std_ctx(b)
@@ -1029,7 +1253,8 @@ TEXTS = ['', 'x', 'ab', 'plain', 'two words', 'a{{b', '{{}}', 'tail}}']
 # a context key's own value may come out of a '{k}' dict-key / set-member expression: no 0/1 (equal to
 # False/True as dict keys: Python key equality is outside the modelled domain), no float
 # (json.dumps float keys are outside PyRepr.jsonDumps)
-CTX_LEAVES = [None, True, False, -7, 2 ** 70, b'', b'\x00{x}', 12345678901234567890]
+CTX_LEAVES = [None, True, False, -7, 2 ** 70, b'', b'\x00{x}', 12345678901234567890, bytearray(b'{k0}\x00'),
+              bytearray(), b'raw {k0}']
 
 
 def random_case(rng, size):
